@@ -51,7 +51,10 @@ Proof. intros (H1 & H2 & H3 & H4 & H5). destruct cl; cbn; repeat split; assumpti
 (* ---------- frames ---------- *)
 Lemma kview_proj w w' : kview w' = kview w ->
   ticket_ctr w' = ticket_ctr w /\ tr_ev w' = tr_ev w /\ tr_se w' = tr_se w /\ tr_er w' = tr_er w /\ tr_de w' = tr_de w /\ buffer w' = buffer w.
-Proof. unfold kview. intros H. inversion H. auto 10. Qed.
+Proof. unfold kview, kview0. intros H. inversion H. auto 10. Qed.
+Lemma kview0_proj w w' : kview0 w' = kview0 w ->
+  ticket_ctr w' = ticket_ctr w /\ tr_ev w' = tr_ev w /\ tr_se w' = tr_se w /\ tr_er w' = tr_er w /\ tr_de w' = tr_de w /\ buffer w' = buffer w.
+Proof. unfold kview0. intros H. inversion H. auto 10. Qed.
 
 Lemma TInv0_kview all w w' : kview w' = kview w -> TInv0 all w -> TInv0 all w'.
 Proof.
@@ -273,8 +276,10 @@ Record GInv (all : list buffered) (w : world) : Prop := {
 
 Definition gview (w : world) :=
   (ticket_ctr w, prepared (tr_se w), prepared (tr_er w), prepared (tr_de w), prepared (tr_ev w), g_prep w, g_claim w).
+Lemma gview_kview0 w w' : kview0 w' = kview0 w -> gview w' = gview w.
+Proof. unfold kview0, gview. intros H. inversion H. reflexivity. Qed.
 Lemma gview_kview w w' : kview w' = kview w -> gview w' = gview w.
-Proof. unfold kview, gview. intros H. inversion H. reflexivity. Qed.
+Proof. intros H. apply gview_kview0, kview_kview0, H. Qed.
 Lemma GInv_gview all w w' : gview w' = gview w -> GInv all w -> GInv all w'.
 Proof.
   unfold gview. intros H [G1 G2 G3 G4 G5 G6 G7 G8]. inversion H as [[E1 E2 E3 E4 E5 E6 E7]].
@@ -522,6 +527,10 @@ Proof.
   - constructor; rewrite ?E1, ?E2, ?E3, ?E4, ?E5; assumption.
   - eapply GInv_gview; [|exact G]. unfold gview. rewrite E1, E2, E3, E4, E5, E6, E7. reflexivity.
 Qed.
+Lemma tkview_kview0 w w' : kview0 w' = kview0 w -> tkview w' = tkview w.
+Proof. unfold kview0, tkview. intros H. inversion H. reflexivity. Qed.
+Lemma flags_within_kview0 cl w w' : kview0 w' = kview0 w -> flags_within cl w -> flags_within cl w'.
+Proof. intros HK. destruct (kview0_proj _ _ HK) as (K1 & K2 & K3 & K4 & K5 & K6). destruct cl; unfold flags_within, flags_off; now rewrite ?K2, ?K3, ?K4, ?K5. Qed.
 Ltac tsame T := first [exact T | refine (TInv_eq _ _ _ _ _ _ T); reflexivity].
 Lemma prepare_ok c all w t su cl w1 : prepare_cmd c w = Some (t, su, cl, w1) -> TInv all w -> flags_off w ->
   TInv (mkBuf t su cl :: all) w1 /\ flags_off w1 /\ buffer w1 = buffer w /\ oview w1 = oview w /\ rview w1 = rview w.
@@ -562,7 +571,7 @@ Proof.
   - intros t0 w H. eapply skeys_evolves; [|exact H]. apply evolves_despawn.
   - intros t0 cb b w H _. exact H.
   - intros t0 tk w H. unfold once_finish. destruct (alookup t0 (cbs w)); exact H.
-  - intros sd t0 r c w H. eapply skeys_evolves; [|exact H]. apply evolves_rview. apply rview_body_begin.
+  - intros sd t0 r c w _ H. eapply skeys_evolves; [|exact H]. apply evolves_rview. apply rview_body_begin.
   - intros w H. exact H.
 Qed.
 
@@ -588,7 +597,7 @@ Proof.
   - intros t0 w H. eapply He; [apply evolves_despawn|exact H].
   - intros t0 cb b w H _. exact H.
   - intros t0 tk w H. unfold once_finish. destruct (alookup t0 (cbs w)); exact H.
-  - intros sd t0 r c w H. eapply He; [apply evolves_rview; apply rview_body_begin|exact H].
+  - intros sd t0 r c w _ H. eapply He; [apply evolves_rview; apply rview_body_begin|exact H].
   - intros w H. exact H.
 Qed.
 
@@ -613,7 +622,7 @@ Proof.
   - intros t w [H1 H2]. split; [apply (c_despawn _ _ A)|apply (c_despawn _ _ B)]; assumption.
   - intros t cb b w [H1 H2] E. split; [apply (c_cbbump _ _ A)|apply (c_cbbump _ _ B)]; assumption.
   - intros t tk w [H1 H2]. split; [apply (c_oncefin _ _ A)|apply (c_oncefin _ _ B)]; assumption.
-  - intros sd t r c w [H1 H2]. split; [apply (c_body _ _ A)|apply (c_body _ _ B)]; assumption.
+  - intros sd t r c w HG [H1 H2]. split; [apply (c_body _ _ A)|apply (c_body _ _ B)]; assumption.
   - intros w [H1 H2]. split; [apply (c_clear _ _ A)|apply (c_clear _ _ B)]; assumption.
 Qed.
 End TicketClosed.
@@ -731,7 +740,7 @@ Definition TPre (i : instr) (H : list buffered) (w : world) : Prop :=
   | IRun t su cl idx => TI (mkBuf t su cl :: all) w /\ alookup t (storage w) = Some true
   | ICallback t cl => TF t cl all w /\ alookup t (storage w) = Some false
                       /\ (forall cb, alookup t (cbs w) = Some cb -> cb_once cb <> None -> cb_taken cb = false)
-  | IBody t _ _ cl => TF t cl all w
+  | IBody t r c cl => TF t cl all w /\ state_ok_b t r c w = true
   | IExclSteps _ _ _ (CCleanup cl :: r) _ => TW cl all w /\ nocl r
   | IExclSteps _ _ _ pending _ => TI all w /\ nocl pending
   | IReplay t pending kept => TI (buffer w ++ pending ++ kept ++ H) w
@@ -927,8 +936,9 @@ Proof.
     assert (Hcbs : alookup t (cbs w) <> None) by (apply C; rewrite Hst; discriminate).
     destruct (alookup t (cbs w)) as [cb|] eqn:EC; [|contradiction].
     assert (Hsp : In t (spawned w)) by (apply (proj2 U); eapply alookup_Some_key; eauto).
-    assert (Hbump : forall bt, TF t cl (buffer (cb_bump t cb bt w) ++ H) (cb_bump t cb bt w)).
-    { intros bt. change (buffer (cb_bump t cb bt w)) with (buffer w).
+    assert (Hbump : forall bt, TPre (IBody t (cb_runno cb) (cb_captured cb) cl) H (cb_bump t cb bt w)).
+    { intros bt. unfold TPre. split; [|unfold state_ok_b, cb_bump; cbn [cbs set]; rewrite alookup_aupd_same, EC; cbn; rewrite !N.eqb_refl; reflexivity].
+      change (buffer (cb_bump t cb bt w)) with (buffer w).
       split; [tsame T|]. split; [eapply fl_ok_fresh; [|exact F]; reflexivity|]. split; [apply O_cb_bump; [exact O|rewrite Hst; discriminate]|].
       split; [apply (C_cbs_upd t _ w C)|apply (c_cbbump _ _ UC); assumption]. }
     destruct (cb_once cb) as [tk|] eqn:Eonce.
@@ -957,13 +967,18 @@ Qed.
 Lemma case_IBody t runno captured cl H w : TPre (IBody t runno captured cl) H w -> TPost (IBody t runno captured cl) H (exec P (S f) (IBody t runno captured cl) w).
 Proof.
   intros HP. pose proof (Ubase_closed P) as UC. cbn [exec].
-    unfold TPre in HP. cbn zeta. set (sd := sys_or_default P t).
-    pose proof (proj2 (proj1 (proj2 HP))) as Hfresh. unfold fresh_claim in Hfresh. rewrite Hfresh. cbn [negb].
+    unfold TPre in HP. destruct HP as [HP Hstate]. cbn zeta. set (sd := sys_or_default P t).
+    pose proof (proj2 (proj1 (proj2 HP))) as Hfresh. unfold fresh_claim in Hfresh.
+    assert (HG : body_guard t runno captured w = true) by (unfold body_guard; rewrite Hfresh, Hstate; reflexivity).
+    rewrite HG. cbn [negb].
     assert (HP' : TW cl (buffer w ++ H) w) by (destruct HP as (T & [F _] & R); exact (conj T (conj F R))).
     assert (Hb : TW cl (buffer (body_begin P sd t runno captured w) ++ H) (body_begin P sd t runno captured w)).
-    { rewrite (proj2 (proj2 (proj2 (proj2 (proj2 (kview_proj _ _ (kview_body_begin P sd t runno captured w))))))).
-      eapply TX_inert; [apply fl_ok_within|apply kview_body_begin|apply oview_body_begin| |exact HP'].
-      apply (c_body _ _ UC). exact (proj2 (proj2 (proj2 (proj2 HP')))). }
+    { rewrite (proj2 (proj2 (proj2 (proj2 (proj2 (kview0_proj _ _ (kview0_body_begin P sd t runno captured w))))))).
+      destruct HP' as (T & F & O & C & U).
+      split; [refine (TInv_eq _ _ _ _ eq_refl _ T); apply tkview_kview0, kview0_body_begin|]. split; [eapply flags_within_kview0; [apply kview0_body_begin|exact F]|].
+      split; [unfold body_begin; apply O_state_bump; eapply O_oview; [apply oview_body_sample|exact O]|].
+      split; [unfold body_begin; apply C_state_bump; eapply C_oview; [apply oview_body_sample|exact C]|].
+      apply (c_body _ _ UC); [exact HG|exact U]. }
     destruct (sd_kind sd).
     + pose proof (TX_acts (flags_within cl) _ (OSys t runno) 0 (script_of P t runno) _ (fl_ok_within cl) Hb) as [HTa HBa].
       pose proof (acts_no_cleanup P (script_of P t runno) (OSys t runno) 0 (body_begin P sd t runno captured w)) as Hn.
